@@ -337,8 +337,9 @@ def check_form_against_oracle(form, mesh, cell, geom, scalar, options, seed, ent
                 if len(sides) == 2:
                     # an independent second cell: the comparison is between two functions of the same data
                     Xs.append(X0[::1] * 0.9 + 0.05 + rng.uniform(-0.02, 0.02, size=X0.shape))
-                w, c = draw_data(fo, rng, sides, cmplx_data)
-                for ents, codes in choices:
+                modes = [cmplx_data] if not isinstance(cmplx_data, (list, tuple)) else list(cmplx_data)
+                draws = [draw_data(fo, rng, sides, m) for m in modes]
+                for (w, c), (ents, codes) in itertools.product(draws, choices):
                     ecell = fo.entity_cell(itype, ents[0])
                     try:
                         R = fo.tensor(itype, sid, Xs, w, c, entities=ents, codes=codes)
@@ -428,3 +429,67 @@ def run_recipe(cfg, scalar="float64", options=None, seed=0, **kw):
         # UFL refused while constructing the form: also inapplicable (nothing reached FFCx)
         return dict(status="inapplicable", why=f"UFL build: {type(e).__name__}: {str(e)[:100]}", evaluations=0, nontrivial=0, failures=[])
     return check_form_against_oracle(B.form, B.mesh, B.cell, cfg.get("geom", "affine"), scalar, options, seed, **kw)
+
+
+# ---------------------------------------------------------------------------------------------------
+# metamorphic support: the outputs of every kernel call of a form under given options, on inputs that depend only
+# on (form, seed) - two compilations of the same form can be compared call by call
+# ---------------------------------------------------------------------------------------------------
+def collect_outputs(form, mesh, cell, geom, scalar, options, seed, entity_mode="quick", instances=("aff",), forms_list=None, index=0, max_calls=40):
+    """Returns (status, {call key: A}, info). forms_list: compile several forms in one request and look at forms_list[index]."""
+    import ffcx.codegeneration.jit as jit
+
+    cmplx = "complex" in scalar
+    try:
+        fo = oracle.FormOracle(form, cmplx=cmplx)
+    except Exception as e:
+        return "raised", {}, f"UFL: {type(e).__name__}: {str(e)[:200]}"
+    opts = dict(options or {})
+    opts["scalar_type"] = scalar
+    cache = tempfile.mkdtemp(prefix="jit_", dir=scratch_root())
+    try:
+        try:
+            objs, module, code = jit.compile_forms(list(forms_list) if forms_list else [form], options=opts, cache_dir=cache)
+        except Exception as e:
+            return "raised", {}, f"{type(e).__name__}: {str(e)[:200]}"
+        f = objs[index]
+        offsets = [f.form_integral_offsets[i] for i in range(len(UFCX_TYPES) + 1)]
+        ids = [f.form_integral_ids[k] for k in range(offsets[-1])]
+        kernels = [f.form_integrals[k] for k in range(offsets[-1])]
+        positions = [f.original_coefficient_positions[i] for i in range(f.num_coefficients)]
+        rank = f.rank
+        out = {}
+        rng = np.random.default_rng([seed, 9])
+        for itype, sid in fo.targets():
+            t = UFCX_TYPES.index(itype)
+            ks = [k for k in range(offsets[t], offsets[t + 1]) if ids[k] == sid]
+            sides = ("+", "-") if itype == "interior_facet" else (None,)
+            full_shape = fo.tensor_shape(itype)
+            choices = entity_choices(fo, itype, entity_mode)
+            if max_calls and len(choices) > max_calls:
+                step = len(choices) / max_calls
+                choices = [choices[int(i * step)] for i in range(max_calls)]
+            for inst, X0 in geometry_instances(mesh, cell, geom, rng, instances):
+                Xs = [X0] + ([X0 * 0.9 + 0.05 + rng.uniform(-0.02, 0.02, size=X0.shape)] if len(sides) == 2 else [])
+                w, c = draw_data(fo, rng, sides, cmplx)
+                parts = []
+                for pos in positions:
+                    parts += [np.asarray(v) for v in w[fo.original_coefficients[pos]]]
+                wv = np.concatenate(parts) if parts else np.zeros(0)
+                cv = np.concatenate([np.asarray(c[k]).ravel() for k in fo.constants]) if fo.constants else np.zeros(0)
+                nA = 1
+                shape = full_shape[:rank] if rank < len(full_shape) else full_shape
+                for n in shape:
+                    nA *= n
+                for ents, codes in choices:
+                    ecell = fo.entity_cell(itype, ents[0])
+                    tag = 0 if ecell == "point" else int(getattr(basix.CellType, ecell))
+                    valid = [k for k in ks if kernels[k].domain == tag]
+                    call = Call(scalar, np.zeros(nA), wv, cv, pack_geometry(Xs), ents[: len(sides)] if itype != "cell" else (0,),
+                                codes[: len(sides)] if itype == "interior_facet" else (0, 0), null_entity=(itype == "cell"))
+                    for k in valid:
+                        call.run(kernels[k])
+                    out[(itype, sid, inst, tuple(ents), tuple(codes))] = (call.result(), shape, bool(call.breaches()), len(valid))
+        return "ok", out, dict(rank=rank, full_shape={it: fo.tensor_shape(it) for it, _ in fo.targets()})
+    finally:
+        shutil.rmtree(cache, ignore_errors=True)
